@@ -142,7 +142,7 @@ def _crc_core(tree, ob, meth):
     # statements whose value, inlined, is (or compares with) the packed CRC of that encoding
     full = []
     for n in walk_local(func):
-        if isinstance(n, ast.Assign):
+        if isinstance(n, ast.Assign) or (isinstance(n, ast.Return) and n.value is not None):
             v = fv.value_at(n.value, n, depth=6, keep=('defn', 'crc_value'))
             if pm(FULL, v) is not None or (isinstance(v, ast.Compare) and len(v.ops) == 1 and isinstance(v.ops[0], ast.Eq) and
                                            (pm(FULL, v.comparators[0]) is not None or pm(FULL, v.left) is not None)):
@@ -184,7 +184,7 @@ def c08c(tree, ob):
             ob.violate(BLOCKS, qual, 'crc_type', 'CRC type is not read from the block CRC-type field', fv.func)
     # update stores the computed value; check compares and restores
     fv, zero, pre, full, defn = cores['update_crc']
-    comp = [(n, v) for (n, v) in full if not isinstance(v, ast.Compare)]
+    comp = [(n, v) for (n, v) in full if not isinstance(v, ast.Compare) and isinstance(n, ast.Assign)]
     if comp:
         (cn, _v) = comp[0]
         # the computed value reaches the field: stored directly, or through the local it was assigned to
@@ -212,7 +212,12 @@ def c08c(tree, ob):
             if not cv or pm('self.fields.get(self.crc_value_name)', cv[0].value) is None or (zero and not fv.dominates(cv[0], zero[0])[0]):
                 ob.violate(BLOCKS, fv.qual, 'crc_value = self.fields.get(self.crc_value_name)', 'the received CRC is not saved before the field is zeroed', fv.func)
             rets = [r for r in walk_local(fv.func) if isinstance(r, ast.Return) and r.value is not None and not isinstance(r.value, ast.Constant)]
-            if not rets or any(src(r.value) != src(cmpn.targets[0]) for r in rets):
+            if isinstance(cmpn, ast.Return):
+                # the comparison is returned directly; the other returns are the "no CRC" answers (c08d looks at those)
+                others = [r for r in rets if r is not cmpn and not fv.has(r, 'crc_type == 0', True)]
+                if others:
+                    ob.violate(BLOCKS, fv.qual, src(others[0]), 'check_crc does not return the comparison result', others[0])
+            elif not rets or any(src(r.value) != src(cmpn.targets[0]) for r in rets):
                 ob.violate(BLOCKS, fv.qual, 'return valid', 'check_crc does not return the comparison result', fv.func)
     # all-block loops
     for meth, inner in (('update_all_crc', 'update_crc'), ('check_all_crc', 'check_crc')):
@@ -343,13 +348,13 @@ def c08d(tree, ob):
         ob.site('scapy_cbor/packets.py', tells[0], 'input not consumed completely by the item is an error')
     # type 0: no CRC value on output, none accepted on input
     fu = FuncView(tree, BLOCKS, 'AbstractBlock.update_crc')
-    nones = [n for n in walk_local(fu.func) if isinstance(n, ast.Assign) and src(n.targets[0]) == 'crc_value' and isinstance(n.value, ast.Constant) and n.value.value is None]
+    nones = [n for n in walk_local(fu.func) if isinstance(n, ast.Assign) and src(n.targets[0]) in ('crc_value', 'self.fields[self.crc_value_name]') and isinstance(n.value, ast.Constant) and n.value.value is None]
     if not nones or not fu.has(nones[0], 'crc_type == 0', True):
         ob.violate(BLOCKS, fu.qual, 'crc_type == 0 -> crc_value = None', 'a block with CRC type 0 can carry a CRC value', fu.func)
     else:
         ob.site(BLOCKS, nones[0], 'type 0 -> no CRC value')
     fc = FuncView(tree, BLOCKS, 'AbstractBlock.check_crc')
-    v0 = [n for n in walk_local(fc.func) if isinstance(n, ast.Assign) and norm.atom(n.value) == ('crc_value is None', True)]
+    v0 = [n for n in walk_local(fc.func) if isinstance(n, (ast.Assign, ast.Return)) and n.value is not None and norm.atom(n.value) == ('crc_value is None', True)]
     if not v0 or not fc.has(v0[0], 'crc_type == 0', True):
         ob.violate(BLOCKS, fc.qual, 'crc_type == 0 -> valid = crc_value is None', 'a block with CRC type 0 that carries a CRC value is accepted', fc.func)
     else:
